@@ -776,3 +776,38 @@ def sibling(prog, rng, attempts=4):
         if p != prog and is_tame(p):
             return p
     return None
+
+
+def functional_branch_program(rng):
+    """Sin / Cos / Exp of a drawn variable (or of a constant) assigned inside branches: the condition of such an assignment
+    has to survive both representations of conditions"""
+    d = rng.choice(["Normal(0, 1)", "Uniform(0, 1)", "Uniform(-1, 1)", "Normal(1, 1/4)"])
+    fn = lambda: rng.choice(["Sin", "Cos", "Exp", "Sin", "Cos"])
+    arg = lambda: "u" if rng.random() < 0.8 else rng.choice(["1", "1/2", "2"])
+    p1, p2 = fstr(rng.choice(PROB_POOL)), fstr(rng.choice(PROB_POOL))
+    init = ["x = 0", f"s = {rng.choice([0, 1, 2])}", "c = 0", "u = 0"]
+    body = [f"c = Bernoulli({p1})", f"u = {d}"]
+    shape = rng.choice(["if", "if-else", "nested", "elif", "if"])
+    f1, f2 = fn(), fn()
+    if f1 == "Exp" or f2 == "Exp":
+        f1 = f2 = "Exp" if rng.random() < 0.5 else rng.choice(["Sin", "Cos"])     # Polar does not mix exponential and trigonometric moments
+    if shape == "if":
+        body += [f"if c == {rng.choice([0, 1])}:", f"    s = {f1}({arg()})"] + (["    x = x + 1"] if rng.random() < 0.5 else []) + ["end"]
+    elif shape == "if-else":
+        body += ["if c == 1:", f"    s = {f1}({arg()})", "else:", f"    s = {f2}({arg()})" if rng.random() < 0.5 else "    s = s/2", "end"]
+    elif shape == "elif":
+        init.append("d = 0")
+        body.insert(1, f"d = Bernoulli({p2})")
+        body += ["if c == 1:", f"    s = {f1}({arg()})", "elif d == 1:", f"    s = {f2}({arg()})", "end"]
+    else:
+        init.append("d = 0")
+        body.insert(1, f"d = Bernoulli({p2})")
+        body += ["if c == 1:", "    if d == 1:", f"        s = {f1}({arg()})", "    else:", f"        s = {f2}({arg()})" if rng.random() < 0.6 else "        x = x + 2",
+                 "    end", "end"]
+    tail = rng.choice(["x = x + s", "x = x + s", "s = s/2", "x = x + c*s", ""])
+    if tail:
+        body.append(tail)
+    rng.shuffle(init)
+    text = "\n".join(init + ["while true:"] + ["    " + l for l in body] + ["end"]) + "\n"
+    goals = ["s"] + rng.sample(["x", "s**2", "c*s", "x"], 2)
+    return text, list(dict.fromkeys(goals))
